@@ -43,6 +43,23 @@ Part 4 declares the described field POSITIONED: .at(2), .shift(1) after a tag by
 class with __bisturi__ = {'align': 2}; each under the three option sets, run through the single-packet histories
 (pure and observed mode, shorter bound).  The reference encoding places the bytes itself: the fill byte '.' in the
 gaps (absolute position, relative shift, padding to a multiple of the alignment counted from the start of the data).
+Part 5 adds layouts run through the single-packet histories (shorter bound) and partly through the two-packet histories:
+    embedded   class Body carries the described + tracked field, class Outer{tag; body = Ref(Body, embed=True); [tail]}
+               borrows them; EVERY operation (keywords, attribute sets, del, reads, pack, unpack) is done on the OUTER
+               packet's own attributes (outer.body is never touched: the docs call embed experimental and say nothing
+               about that object).  Reference encoding = tag byte + Body layout + tail byte.
+    optional   the tracked field is Data(length).when(has): it is None in a default packet and when unpack skipped it.
+    chained    Auto(func) where func reads the described attribute `total` of ANOTHER packet of the same class
+               (slot `prev`): total = (len(value) + prev.total) & 0xff; packet 1 of a two-packet history has
+               prev = packet 0, so its model value is computed from packet 0's model state (explicit or computed).
+Failing computed reads (operation TN = assign None to the tracked field; also the start state of the optional layout):
+while the tracked field is None the computed value does not exist (len(None)): a read of the described attribute of a
+packet that is not explicitly assigned is NOT judged (any exception or value accepted, counted), nor is a pack() of such
+a packet (for a non-optional tracked field no pack() is judged while it is None).  Everything else stays judged: an
+explicitly assigned packet still reads its value, the other live packet is unaffected, and as soon as the tracked field is
+assigned again (T0/T1) the statement applies in full (reads the computed value, packs it).
+Part 6: single-packet histories over the 8 operations that contain TN; Part 7: the same over two live packets (exhaustive
+short bound + seeded samples of longer histories); Part 8: nested Ref(Inner) / Ref(Inner).repeated(n) histories with TN.
 """
 import itertools
 import os
@@ -113,7 +130,7 @@ ASSUMPTIONS = [
 ]
 
 HEADER = ("from bisturi.packet import Packet\n"
-          "from bisturi.field import Data, Int\n"
+          "from bisturi.field import Data, Int, Ref\n"
           "from bisturi.descriptor import Auto, AutoLength\n\n")
 
 OPTSETS = [
@@ -224,12 +241,83 @@ VARIANTS = [
                  (b"\x80.\x00.\x01", b"", {"tag": 128, "tail": 1}),
                  (b"\x09.\x03.abc.\x07", b"abc", {"tag": 9, "tail": 7})],
     },
+    # ---- Part 5: optional tracked field (None in a default packet / when unpack skipped it)
+    {
+        "name": "optional_tracked", "group": "optional", "two": True,
+        "body": "    has = Int(1)\n"
+                "    length = Int(1).describe(AutoLength('value'))\n"
+                "    value = Data(length).when(has)\n",
+        "described": "length", "tracked": "value", "others": ["has"],
+        "layout": [("has", 1), ("D", 1), ("T",)],
+        "f": _f_len, "tv": [b"ab", b"wxyz!"], "default": None, "none_packs_empty": True,
+        "k_incons": 7,
+        # has == 0: the tracked field is absent whatever the length byte says
+        "raws": [(b"\x01\x02ab", b"ab", {"has": 1}), (b"\x00\x05", None, {"has": 0}), (b"\x01\x00", b"", {"has": 1})],
+    },
+    # ---- Part 5: Auto(func) reading the described attribute of another packet of the same class
+    {
+        "name": "auto_chained", "group": "chained", "two": True, "chained": True,
+        "conf_extra": "'additional_slots': ['prev']",
+        "body": "    total = Int(1).describe(Auto(lambda p: (len(p.value) + (p.prev.total if p.prev is not None else 0)) & 0xff))\n"
+                "    n = Int(1).describe(AutoLength('value'))\n"
+                "    value = Data(n)\n",
+        "described": "total", "tracked": "value", "others": [],
+        "layout": [("D", 1), ("L", 1), ("T",)],        # "L": a second, never assigned AutoLength of the tracked field
+        "f": _f_len, "tv": [b"ab", b"wxyz!"], "default": b"",
+        "k_incons": 200,
+        # raw total byte 9 with 2 data bytes: the attribute must read 2 (computed), not 9
+        "raws": [(b"\x09\x02ab", b"ab", {}), (b"\x00\x00", b"", {}), (b"\x03\x03q\x00r", b"q\x00r", {})],
+    },
 ]
-PLAIN_VARIANTS = [v for v in VARIANTS if not v.get("positioned")]
+
+
+def _embedded_variant(base, name, tag, tail, two=False):
+    """Outer{[tag]; body = Ref(Body, embed=True); [tail]} where Body has the fields of `base`."""
+    v = dict(base)
+    v.pop("plain", None)
+    v["name"] = name
+    v["group"] = "embedded"
+    v["embedded"] = True
+    v["two"] = two
+    v["outer_body"] = ("    tag = Int(1)\n" if tag else "") + "    body = Ref(%s, embed=True)\n" + ("    tail = Int(1)\n" if tail else "")
+    v["others"] = (["tag"] if tag else []) + list(base["others"]) + (["tail"] if tail else [])
+    v["layout"] = ([("tag", 1)] if tag else []) + list(base["layout"]) + ([("tail", 1)] if tail else [])
+    raws = []
+    for raw, parsed, others in base["raws"]:
+        o = dict(others)
+        if tag:
+            raw = b"\x07" + raw
+            o["tag"] = 7
+        if tail:
+            raw = raw + b"\x09"
+            o["tail"] = 9
+        raws.append((raw, parsed, o))
+    v["raws"] = raws
+    return v
+
+
+def _by_name(name):
+    return [v for v in VARIANTS if v["name"] == name][0]
+
+
+for _v in VARIANTS[:4]:
+    _v["plain"] = True
+for _v in VARIANTS:
+    if _v.get("positioned"):
+        _v["group"] = "positioned"
+VARIANTS.extend([
+    _embedded_variant(_by_name("autolen_data"), "emb_autolen_data", True, False, two=True),
+    _embedded_variant(_by_name("autolen_vectorised"), "emb_autolen_vectorised", True, True),
+    _embedded_variant(_by_name("autolen_repeated"), "emb_autolen_repeated", False, True),
+    _embedded_variant(_by_name("optional_tracked"), "emb_optional_tracked", True, False),
+])
+PLAIN_VARIANTS = [v for v in VARIANTS if v.get("plain")]
 FILL = b"."
+_BROKEN = "<no computed value: tracked field is None>"     # compared by identity only
 
 OPS = ("T0", "T1", "D0", "D1", "DEL", "RD", "PK")
-STATE_CHANGING = ("T0", "T1", "D0", "D1", "DEL")
+OPS8 = OPS + ("TN",)
+STATE_CHANGING = ("T0", "T1", "D0", "D1", "DEL", "TN")
 
 
 def class_source(variant, optname, optsrc):
@@ -237,6 +325,11 @@ def class_source(variant, optname, optsrc):
     extra = variant.get("conf_extra")
     if extra:
         optsrc = "{" + extra + (", " + optsrc[1:] if optsrc != "{}" else "}")
+    if variant.get("embedded"):
+        bname = cname + "_Body"
+        src = HEADER + "class %s(Packet):\n    __bisturi__ = %s\n%s" % (bname, optsrc, variant["body"])
+        src += "\n\nclass %s(Packet):\n    __bisturi__ = %s\n%s" % (cname, optsrc, variant["outer_body"] % bname)
+        return cname, src
     src = HEADER + "class %s(Packet):\n    __bisturi__ = %s\n%s" % (cname, optsrc, variant["body"])
     return cname, src
 
